@@ -274,9 +274,11 @@ class Loader:
                 c.attrs[s.target.id] = self._const(m, s.value, s.target.id)
         return c
 
-    def _static_expr(self, m, e):
+    def _static_expr(self, m, e, scope=None):
         """evaluate a base-class / decorator expression without a running path"""
         if isinstance(e, ast.Name):
+            if scope is not None and e.id in scope:
+                return scope[e.id]
             if e.id in m.ns:
                 return m.ns[e.id]
             import builtins
@@ -284,7 +286,7 @@ class Loader:
                 return getattr(builtins, e.id)
             return Ext(e.id)
         if isinstance(e, ast.Attribute):
-            base = self._static_expr(m, e.value)
+            base = self._static_expr(m, e.value, scope)
             if isinstance(base, Ext):
                 return Ext(base.name + "." + e.attr)
             if isinstance(base, ModuleNS):
@@ -295,10 +297,10 @@ class Loader:
                 return ("property.setter", base)
             return Ext("?." + e.attr)
         if isinstance(e, ast.Subscript):
-            return self._static_expr(m, e.value)
+            return self._static_expr(m, e.value, scope)
         if isinstance(e, ast.Call):
-            f = self._static_expr(m, e.func)
-            args = [self._static_expr(m, a) for a in e.args]
+            f = self._static_expr(m, e.func, scope)
+            args = [self._static_expr(m, a, scope) for a in e.args]
             return ("call", f, args)
         if isinstance(e, ast.Constant):
             return e.value
@@ -313,7 +315,7 @@ class Loader:
     def _decorate(self, m, f, st, cls=None):
         val = f
         for d in reversed(st.decorator_list):
-            dv = self._static_expr(m, d)
+            dv = self._static_expr(m, d, cls.attrs if cls is not None else None)
             val = self._apply_deco(m, dv, val, d)
         return val
 
